@@ -27,6 +27,8 @@ func init() {
 			{ID: "C01.R7", Floor: 3, Run: c01r7, Text: "per-column loops visit every column: in methods of the table type, a loop over the node's id list is left only through its range condition (no break/return out of the loop body)"},
 			{ID: "C01.R9", Floor: 2, Run: c01r9, Text: "graph edges are installed in symmetric pairs: every X.neighbors.Set(id, Y) in the destination finder has a partner Y.neighbors.Set(id, X) with the same id in the same block"},
 			{ID: "C01.R8", Floor: 5, Run: c02r6, Text: "growth copies whole slices (= C02.R6)"},
+			{ID: "C01.R10", Floor: 3, Run: divModPairs, Text: "two-level addressing tiles the index space: where one value is divided by a constant and reduced modulo a constant in the same function (idMap chunk/slot, bitSet and Mask word/bit, paged slices), the two constants are equal (mask = 2^k-1 for the shift/mask spelling)"},
+			{ID: "C01.R11", Floor: 1, Run: setReturnsStorage, Text: "archetype methods that write a component and return an unsafe.Pointer return the pointer into column storage (derived from Get / layout.pointer), never the caller's source pointer"},
 		},
 	})
 }
